@@ -83,21 +83,6 @@ def deref(expr, fn):
     return expr
 
 
-def attr_inits(ctx, cref):
-    """{attr: [value nodes]} assigned as self.attr = ... in the methods of the class (through the MRO)."""
-    out = {}
-    for m, cnode in ctx.res.mro(cref):
-        for stmt in cnode.body:
-            if isinstance(stmt, ast.FunctionDef):
-                for n in walk_local(stmt):
-                    if isinstance(n, ast.Assign):
-                        for t in n.targets:
-                            a = self_attr(t)
-                            if a:
-                                out.setdefault(a, []).append((stmt, n))
-    return out
-
-
 def constructions(ctx, cref):
     """All call sites in the package constructing the class (or a subclass is not followed)."""
     out = []
@@ -112,9 +97,6 @@ def constructions(ctx, cref):
 # ---------------------------------------------------------------------------------------------
 # Semantic path-condition evaluation for cells: "this site is only reached for cells in state S"
 # ---------------------------------------------------------------------------------------------
-def _cells_origin(expr, fn):
-    from .c04 import _derives_from_map
-    return _derives_from_map(expr, fn, 'cells')
 
 
 CELL_STATES = {
